@@ -718,7 +718,14 @@ func (p *Parser) parseTransferEncoding() error {
 	if strings.ToLower(textproto.TrimString(raw[0])) != "chunked" {
 		return fmt.Errorf("unsupported transfer encoding: %q", raw[0])
 	}
-	delete(p.header, contentLengthHeader)
+	// chunked overrides Content-Length, but a malformed Content-Length is
+	// still malformed framing metadata: validate it before discarding it.
+	if _, ok := p.header[contentLengthHeader]; ok {
+		if err := p.parseContentLength(); err != nil {
+			return err
+		}
+		delete(p.header, contentLengthHeader)
+	}
 	p.chunked = true
 
 	return nil
